@@ -192,6 +192,26 @@ def run(ctx):
                 s.lines += ["gets", "getd", "reset", "gets", "free"]
                 s.starts.add(len(s.parts))
                 scens.append(s)
+        if alg in ((0, 1, 2, 3, 4, 5) if ctx.quick else tuple(range(0, 10))):
+            # long messages: the total length since the last reset passes 2^26 and 2^29 bytes (every bit of the byte counter that is moved
+            # when the length is turned into a bit count), in one object that is reset in between
+            s = Scen(alg)
+            s.starts = {0}
+            cid[0] += 1; s.upd(cid[0], 5, 9)
+            cid[0] += 1; s.updbig(cid[0], 26, 0, 31)
+            s.lines += ["gets", "reset"]
+            s.starts.add(len(s.parts))
+            cid[0] += 1; s.upd(cid[0], 1, 5)
+            cid[0] += 1; s.updbig(cid[0], 29, 4, 32)
+            s.lines += ["gets", "reset"]
+            s.starts.add(len(s.parts))
+            if not ctx.quick:
+                for lg, extra in ((27, 12345), (30, 1), (31, 9)):
+                    cid[0] += 1; s.updbig(cid[0], lg, extra, 33)
+                    s.lines += ["gets", "reset"]
+                    s.starts.add(len(s.parts))
+            s.lines += ["free"]
+            scens.append(s)
         jobs.append((alg, scens))
     files = []
     # one job per (algorithm, part); scenarios with 4 GiB updates form parts of their own and run on the plain build (run in parallel:
